@@ -421,6 +421,7 @@ class Violation:
 ORACLE_PROPS = {
     "get_eq_model":            {"C12": None},
     "invalid_update_rejected": {"C12": None},
+    "set_acceptance_eq_oracle": {"C12": None},
     "preset_eq_pristine":      {"C12": None},
     "alphabet_eq_oracle":      {"C07": None, "C12": "fault"},
     "alphabet_lower_bound":    {"C07": None},
@@ -504,6 +505,12 @@ class Verifier:
             r = rec["r"]
             if k in ("set_preset", "set_table"):
                 fault = k == "set_table" and "why" in op
+                # whether an update is accepted must not depend on what happened before: ask a fresh interpreter
+                fresh = ask(("preset", op["name"] or "default") if k == "set_preset" else ("lit", op["lit"]), ("get",))
+                probe("checked:set_acceptance_eq_oracle")
+                if (r[0] == "ok") != (fresh[0] == "ok"):
+                    out.append(Violation("set_acceptance_eq_oracle", idx, {
+                        "arg": (op.get("lit") or repr(op.get("name")))[:300], "here": r[:2], "fresh_interpreter": fresh[:2]}))
                 if op.get("wrap"):
                     probe("fault_caller_dict_subclass:" + op["wrap"])
                 if r[0] == "ok":
